@@ -28,6 +28,10 @@ RULE = ("single writer: every script of <= 2 (quick) / 3 (thorough) body actions
         "histories: two AtomicWriter OBJECTS, each re-used for a list of uses (normal and exceptional exits), threads in "
         "lock-step: every interleaving for empty bodies, fixed 'the other slips in after k operations' patterns, random "
         "schedules and one injected fault at each boundary of sampled schedules; oracle after every operation. "
+        "destination NAME SHAPES as a dimension: single writers on names with no/one/several suffixes, ending in .tmp, "
+        "prefix/suffix/case twins and names of the code's own temp pattern tmp_<N> (keyed to the open finding), each with "
+        "textually related bystander files, fault + crash at every boundary; pairs/triples of writers whose destinations differ "
+        "only in the last suffix, are prefixes of each other, case twins, *.tmp (all interleavings for pairs with empty bodies). "
         "BSP.save: the sample tests/test_vec/rot_main.bsp stripped to ~2 kB and at full size, same treatment. "
         "A case = (scenario, fault plan, kill point / schedule); non-trivial = has a fault, a kill point, a body exception, "
         "a decoy or a second writer; distinct by content.")
@@ -58,7 +62,7 @@ FAULT_CODE = {'eexist': 1, 'enoent': 2, 'eio': 3, 'enospc': 3, 'eperm': 3}
 OPNAMES = ['mkdir', 'create', 'write', 'seek', 'close', 'replace', 'unlink']
 RESNAMES = ['ok', 'eexist', 'enoent', 'err']
 OUTNAMES = ['ok', 'body', 'os']
-TMP_RE = re.compile(r'^tmp_(\d+)$')
+TMP_RE = re.compile(r'^tmp_(0|[1-9][0-9]*)$')   # exactly the names f'tmp_{i}' can produce
 SAMPLE_BSP = 'tests/test_vec/rot_main.bsp'
 
 
@@ -98,11 +102,34 @@ class Case:
         self.old = files.get(dest)
 
     def names(self):
-        codes = {self.dest: [0, 0]}
+        """file name -> model name; names of the code's temp pattern tmp_<N> are Name.tmp N (also when such a
+        name is the destination), every other name is an opaque Name.file k."""
+        codes = {}
+        if not TMP_RE.match(self.dest):
+            codes[self.dest] = [0, 0]
+        k = 1
         for n in sorted(self.files):
             if n not in codes and not TMP_RE.match(n):
-                codes[n] = [0, len(codes)]
+                codes[n] = [0, k]
+                k += 1
         return codes
+
+
+class KeyedCtx:
+    """Oracle failures inside an excluded class are recorded under the key of its open known finding."""
+
+    def __init__(self, ctx, key):
+        self._c, self._k = ctx, key
+
+    def witness(self, key, what, inp):
+        # keep the (bounded) witness list free for failures outside the excluded class
+        n = self._c.hist.get('excluded-class:' + self._k, 0)
+        self._c.count('excluded-class:' + self._k)
+        if n < 2:
+            self._c.witness(self._k, f'[{key}] {what}', inp)
+
+    def __getattr__(self, a):
+        return getattr(self._c, a)
 
 
 def name_code(codes, n):
@@ -131,8 +158,9 @@ def writer_case(sc):
     files = {KEEP: KEEP_BYTES}
     if sc.get('old') is not None:
         files[dest] = bytes.fromhex(sc['old'])
-    for n, h in (sc.get('decoys') or {}).items():
-        files[n] = bytes.fromhex(h)
+    for n, h in list((sc.get('decoys') or {}).items()) + list((sc.get('others') or {}).items()):
+        if n != dest:
+            files[n] = bytes.fromhex(h)
 
     def call(d):
         from srctools import AtomicWriter
@@ -404,6 +432,7 @@ def fault_kinds(op, rng):
 def explore_case(ctx, sb, mb, case, full=True, pairs=False, snaps=True, forks=(), label='writer', fault_snaps=True):
     """Unfaulted run, one fault at each boundary, optional fault pairs, kills; oracle + model comparison."""
     runs = []          # (faults, result)
+    octx = KeyedCtx(ctx, TMPDEST_KEY) if TMP_RE.match(case.dest) else ctx
     base = run_case(sb, case, None, flush=True, snaps=snaps)
     runs.append(({}, base))
     T = len(base['events'])
@@ -432,9 +461,9 @@ def explore_case(ctx, sb, mb, case, full=True, pairs=False, snaps=True, forks=()
     # oracle on every run and every boundary snapshot
     for faults, res in runs:
         desc = dict(case.desc, faults={str(k): v for k, v in faults.items()})
-        check_final(ctx, case, res, desc, bool(faults))
+        check_final(octx, case, res, desc, bool(faults))
         for k, s in enumerate(res['snaps']):
-            check_crash_state(ctx, case, s, dict(desc, kill_at=k, flush=True), f'killed before operation {k}')
+            check_crash_state(octx, case, s, dict(desc, kill_at=k, flush=True), f'killed before operation {k}')
         ctx.case({'case': _compact(case.desc), 'faults': faults, 'events': len(res['events'])},
                  nontrivial=bool(faults) or case.exc_k is not None or len(case.files) > 2)
         ctx.count('outcome:' + res['outcome'].split(':')[0])
@@ -447,7 +476,7 @@ def explore_case(ctx, sb, mb, case, full=True, pairs=False, snaps=True, forks=()
             want = 99 if k < T else (0 if base['outcome'] == 'ok' else 1)
             if code != want:
                 ctx.witness('kill-harness', f'child killed at boundary {k} exited with {code}, expected {want}', desc)
-            check_crash_state(ctx, case, snap, desc, f'process killed (os._exit) before operation {k}' if k < T else 'completed child')
+            check_crash_state(octx, case, snap, desc, f'process killed (os._exit) before operation {k}' if k < T else 'completed child')
             if flush and snaps and k < T and snap != base['snaps'][k]:
                 ctx.disagree(_compact(desc), show_dir(snap), show_dir(base['snaps'][k]), 'directory after a real kill differs from the in-process snapshot at the same boundary')
             ctx.case({'case': _compact(case.desc), 'kill_at': k, 'flush': flush}, nontrivial=True)
@@ -461,7 +490,7 @@ def explore_case(ctx, sb, mb, case, full=True, pairs=False, snaps=True, forks=()
             queries.append({'plan': plan, 'k': None}); meta.append((faults, res, None))
             for k in range(len(res['snaps'])):
                 queries.append({'plan': plan, 'k': k}); meta.append((faults, res, k))
-        req = {'op': 'run', 'impl': None, 'w': model_writer(case), 'fs': model_fs(case.files, codes), 'full': full,
+        req = {'op': 'run', 'impl': None, 'w': model_writer(case, name_code(codes, case.dest)), 'fs': model_fs(case.files, codes), 'full': full,
                'queries': queries}
 
         def cb(rep, meta=meta, codes=codes, case=case):
@@ -694,21 +723,34 @@ def _call_writer(d, sc, dest):
             raise EXC[exc[1]](BODY_MARK)
 
 
-def check_ownership(ctx, res, desc):
-    """Nobody touches a temp file created by the other writer while it is live."""
+def check_ownership(ctx, res, desc, dests=(DEST, DEST2)):
+    """Nobody touches a file created by another writer while it is live (its temp file), whatever it is called;
+    nobody renames onto / opens another writer's destination; pre-existing files are left alone."""
     owner = {}
     for (w, op, name, arg, r) in res['events']:
-        if not TMP_RE.match(str(name)):
+        name = str(name)
+        if op == 'mkdir':
             continue
-        if op == 'create':
+        if op == 'replace' and r == 'ok' and arg in dests and dests.index(arg) != w:
+            ctx.witness('temp-clobbered', f'writer {w} renamed {name} onto {arg}, the destination of writer {dests.index(arg)}', desc)
+        if name in dests:
+            if dests.index(name) != w and r == 'ok':
+                ctx.witness('temp-clobbered', f'writer {w} performed {op} on {name}, the destination of writer {dests.index(name)}', desc)
+            if op in ('create', 'write', 'seek', 'close', 'unlink') or op.startswith('open-'):
+                if r == 'ok':
+                    ctx.witness('mixture', f'writer {w} performed {op} directly on the destination {name}', desc)
+            continue
+        if op == 'create' or op.startswith('open-'):
             if r == 'ok':
-                if name in owner:
-                    ctx.witness('temp-clobbered', f'writer {w} created {name} while it belonged to writer {owner[name]}', desc)
+                if name in owner and owner[name] != w:
+                    ctx.witness('temp-clobbered', f'writer {w} performed {op} on {name}, the live temp file of writer {owner[name]}', desc)
+                elif name not in owner and name in res['files']:
+                    ctx.witness('bystander-clobbered', f'writer {w} performed {op} on pre-existing {name}', desc)
                 owner[name] = w
             continue
         if name in owner and owner[name] != w:
             ctx.witness('temp-clobbered', f'writer {w} performed {op} on {name}, the live temp file of writer {owner[name]}', desc)
-        if name not in owner and name in res['files'] and r == 'ok' and op in ('write', 'replace', 'unlink', 'seek', 'close'):
+        if name not in owner and name in res['files'] and r == 'ok' and op in ('write', 'replace', 'unlink', 'seek', 'close', 'truncate'):
             ctx.witness('bystander-clobbered', f'writer {w} performed {op} on pre-existing {name}', desc)
         if op in ('replace', 'unlink') and r == 'ok':
             owner.pop(name, None)
@@ -816,17 +858,73 @@ def hist_configs(ctx):
     big = ['gen', 9000, 5]
     cfgs = [
         ('reuse-empty-bodies', [A([u([]), u([])]), B([u([])])], {}, 'all'),
-        ('reuse', [A([u(['4131']), u(['4132', '4132'])], OLD.hex()), B([u(['4231', '4231'])], OLD2.hex())], {}, ctx.budget(150, 3000)),
+        ('reuse', [A([u(['4131']), u(['4132', '4132'])], OLD.hex()), B([u(['4231', '4231'])], OLD2.hex())], {}, ctx.budget(100, 3000)),
         ('reuse-after-exception', [A([u(['4131'], [1, 'ValueError']), u(['4132'])], OLD.hex()), B([u(['4231'])])], {'tmp_2': '07'},
          ctx.budget(70, 1500)),
         ('both-reused', [A([u(['4131']), u(['4132'])]), B([u(['4231']), u(['4232'], [0, 'KeyboardInterrupt']), u(['4233'])], OLD2.hex())],
-         {}, ctx.budget(90, 2000)),
+         {}, ctx.budget(60, 2000)),
         ('reuse-long-chunks', [A([u(['4131']), {'script': [['w', big], ['w', '4132']], 'exc': None}], OLD.hex()),
                                B([{'script': [['w', '4231'], ['w', big]], 'exc': None}], OLD2.hex())], {}, ctx.budget(30, 600)),
     ]
     if ctx.thorough:
         cfgs.append(('reuse-one-write-all', [A([u(['4131']), u(['4132'])]), B([u(['4231'])])], {}, 'all'))
+    # destination NAME SHAPES: writers whose destinations are textually related must still be independent
+    W = lambda dest, uses, old=None: {'dest': dest, 'old': old, 'uses': uses}
+    for i, (n1, n2) in enumerate(NAME_PAIRS):
+        stems = {n.rsplit('.', 1)[0] for n in (n1, n2)} | {n1, n2}
+        others = {}
+        for st in sorted(stems):
+            for cand in (st + '.tmp', st + '.TMP', st + '~', st):
+                if cand and cand not in (n1, n2) and not TMP_RE.match(cand) and len(others) < 5:
+                    others.setdefault(cand, ('%02x' % (len(others) + 0x30)) * 3)
+        old1 = OLD.hex() if i % 2 == 0 else None
+        old2 = OLD2.hex() if i % 3 != 1 else None
+        cfgs.append((f'names:{n1}|{n2}:empty', [W(n1, [u([])], old1), W(n2, [u([])], old2)], others, 'all'))
+        if ctx.thorough or i < 1:
+            cfgs.append((f'names:{n1}|{n2}', [W(n1, [u(['4e31'])], old1), W(n2, [u(['4e32'])], old2)], others, 'all'))
+        else:
+            cfgs.append((f'names:{n1}|{n2}', [W(n1, [u(['4e31', '4e31'])], old1), W(n2, [u(['4e32'])], old2)], others,
+                         ctx.budget(25, 400)))
+    three = [W('map.bsp', [u(['4d31'])], OLD.hex()), W('map.vmf', [u(['4d32'])]), W('map.lin', [u(['4d33'])], OLD2.hex())]
+    cfgs.append(('names:three-writers-same-stem', three, {'map.tmp': '747474', 'map': '6d'}, ctx.budget(80, 4000)))
+    cfgs.append(('names:three-writers-same-stem:empty',
+                 [W('map.bsp', [u([])], OLD.hex()), W('map.vmf', [u([])]), W('MAP.BSP', [u([])], OLD2.hex())], {'map.tmp': '747474'},
+                 ctx.budget(80, 'all')))
     return cfgs
+
+
+# pairs of destination names in one directory that differ only in the last suffix, have no / several suffixes, end in
+# .tmp, are prefixes of each other, are case twins, or look like the code's own temp names
+NAME_PAIRS = [('map.bsp', 'map.vmf'), ('map', 'map.bsp'), ('a.tar.gz', 'a.tar.bz2'), ('save.tmp', 'save.bin'),
+              ('Map.bsp', 'map.bsp'), ('out', 'out.tmp'), ('x.tmp', 'x.tmp.bak'), ('.tmp', 'tmp'), ('tmp_', 'tmp_x.bin'),
+              ('tmp_1', 'map.bsp'), ('tmp_2', 'tmp_1')]
+NAME_SHAPES = ['map.bsp', 'noext', 'a.tar.gz', 'save.tmp', '.tmp', 'x.TMP', 'tmp', 'tmp_', 'tmp_x', 'tmp_1.bak', 'Map.BSP',
+               'map.bsp.tmp', 'm\u00e4p.bin', 'with space.txt', 'tmp_1', 'tmp_2', 'tmp_07']
+
+
+def gen_name_scenarios(ctx):
+    """Single writer: destination name shapes x related bystander names x old present/absent x body exception."""
+    i = 0
+    for dest in NAME_SHAPES:
+        stem = dest.rsplit('.', 1)[0] if '.' in dest[1:] else dest
+        others = {}
+        for cand in (stem + '.tmp', stem, dest + '.tmp', dest + '~', dest.swapcase(), stem + '.other', Path_with_suffix(dest)):
+            if cand and cand != dest and not TMP_RE.match(cand):
+                others.setdefault(cand, ('%02x' % (0x61 + len(others))) * 4)
+        for script in ([['w', '616263']], [['w', '616263'], ['s', 1], ['w', '5a']]):
+            for exc in (None, [1, 'ValueError']):
+                for old in (None, OLD.hex()):
+                    i += 1
+                    yield {'mode': 'b', 'dest': dest, 'script': script, 'exc': exc, 'old': old,
+                           'decoys': {'tmp_1': '01'} if i % 3 == 0 and dest != 'tmp_1' else {}, 'others': others}
+
+
+def Path_with_suffix(name):
+    import pathlib
+    try:
+        return pathlib.PurePath(name).with_suffix('.tmp').name
+    except ValueError:
+        return ''
 
 
 def use_ops(use):
@@ -916,8 +1014,8 @@ def run_hist(sb, objs, faults, decoys, prefix, flush=True):
 
 def check_hist(ctx, objs, faults, res, desc):
     """The property after every step of a history over re-used writer objects."""
-    check_ownership(ctx, res, desc)
     dests = [o['dest'] for o in objs]
+    check_ownership(ctx, res, desc, dests)
     news = [[replay_script(use_ops(u)) if not u.get('exc') else None for u in o['uses']] for o in objs]
     olds = [res['files'].get(o['dest']) for o in objs]
     for k, s in enumerate(res['snaps'] + [res['dir']]):
@@ -965,6 +1063,9 @@ def explore_hist(ctx, sb, mb):
     for label, objs, decoys, mode in hist_configs(ctx):
         results = []
         seen = set()
+        t_cfg = time.time()
+
+        octx = KeyedCtx(ctx, TMPDEST_KEY) if any(TMP_RE.match(o['dest']) for o in objs) else ctx
 
         def one(prefix, faults):
             res = run_hist(sb, objs, faults, decoys, prefix)
@@ -973,7 +1074,7 @@ def explore_hist(ctx, sb, mb):
             if key in seen:
                 return res, sched
             seen.add(key)
-            check_hist(ctx, objs, faults, res, hist_desc(label, objs, faults, decoys, sched))
+            check_hist(octx, objs, faults, res, hist_desc(label, objs, faults, decoys, sched))
             ctx.case({'hist': label, 'schedule': ''.join(map(str, sched)), 'faults': sorted(faults.items())},
                      nontrivial=True, sample_every=301)
             ctx.count('history-schedules:' + label)
@@ -982,10 +1083,13 @@ def explore_hist(ctx, sb, mb):
 
         # fixed patterns: sequential, and "the other writer slips in after k operations of the first"
         patterns = [[0] * 80, [1] * 80]
-        for k in range(2, 9):
-            for m in (1, 2, 3):
-                patterns.append([0] * k + [1] * m + [0] * 40)
-                patterns.append([1] * k + [0] * m + [1] * 40)
+        if not label.startswith('names:'):
+            for k in range(2, 9):
+                for m in (1, 2, 3):
+                    patterns.append([0] * k + [1] * m + [0] * 40)
+                    patterns.append([1] * k + [0] * m + [1] * 40)
+        if len(objs) == 3:
+            patterns += [[2] * 80, [0, 1, 2] * 30, [2, 1, 0] * 30, [0, 0, 1, 1, 2, 2] * 15]
         base_runs = []
         for pat in patterns:
             base_runs.append(one(pat, {}))
@@ -1009,7 +1113,10 @@ def explore_hist(ctx, sb, mb):
             for _ in range(mode):
                 one([rng.randrange(len(objs)) for _ in range(90)], {})
         # one injected fault at each boundary of a few schedules
-        picks = base_runs[:2] + [base_runs[i] for i in sorted(rng.sample(range(2, len(base_runs)), ctx.budget(3, 10)))]
+        extra_n = min(ctx.budget(3, 10) if not label.startswith('names:') else ctx.budget(1, 4), max(0, len(base_runs) - 2))
+        picks = base_runs[:2] + [base_runs[i] for i in sorted(rng.sample(range(2, len(base_runs)), extra_n))]
+        if label.startswith('names:') and results:
+            picks = base_runs[:ctx.budget(1, 2)] + [(r, sc) for sc, _, r in rng.sample(results, min(len(results), ctx.budget(1, 6)))]
         for res, sched in picks:
             cnt = [0] * len(objs)
             for w in sched:
@@ -1027,11 +1134,20 @@ def explore_hist(ctx, sb, mb):
                     kind = 'eexist'
                 one(sched, {(w, idx): kind})
                 ctx.count(f'history-fault@{op}')
-        ctx.extra.setdefault('history_runs', {})[label] = {'schedules': len(results), 'all_interleavings': complete}
+        ctx.extra.setdefault('history_runs', {})[label] = {'schedules': len(results), 'all_interleavings': complete,
+                                                            'wall_s': round(time.time() - t_cfg, 1)}
         # model
-        if mb.drv is not None and results:
+        # (two writers with a destination named tmp_<N> clobber each other - the open finding; once a file is renamed
+        #  over or unlinked while open, writes go to an orphan inode, which the name-based model does not have)
+        if mb.drv is not None and results and len(objs) == 2 and octx is ctx:
             files = results[0][2]['files']
-            codes = {DEST: [0, 0], DEST2: [0, 1], KEEP: [0, 2]}
+            codes = {}
+            for i, o in enumerate(objs):
+                if not TMP_RE.match(o['dest']):
+                    codes[o['dest']] = [0, i]
+            for n in sorted(files):
+                if n not in codes and not TMP_RE.match(n):
+                    codes[n] = [0, 2 + len(codes)]
             dest_of = {i: o['dest'] for i, o in enumerate(objs)}
             queries, meta = [], []
             for sched, faults, res in results:
@@ -1046,7 +1162,8 @@ def explore_hist(ctx, sb, mb):
                     queries.append({'sched': ms[:k]}); meta.append((sched, faults, res, k))
             mo = lambda o, code: {'dest': code, 'uses': [{'script': [['w', list(d)] if t == 'w' else ['s', d] for t, d in use_ops(u)],
                                                           'exc': (u['exc'][0] if u.get('exc') else None)} for u in o['uses']]}
-            req = {'op': 'hist', 'impl': None, 'o1': mo(objs[0], [0, 0]), 'o2': mo(objs[1], [0, 1]),
+            req = {'op': 'hist', 'impl': None, 'o1': mo(objs[0], name_code(codes, objs[0]['dest'])),
+                   'o2': mo(objs[1], name_code(codes, objs[1]['dest'])),
                    'fs': model_fs(files, codes), 'full': True, 'queries': queries}
 
             def cb(rep, meta=meta, codes=codes, label=label, dest_of=dest_of):
@@ -1094,6 +1211,17 @@ def explore(ctx, drv):
                 mb.flush()
         mb.flush()
         ctx.log(f'single writer done in {time.time() - t0:.1f}s ({ctx.evaluations} cases)')
+        # (A') destination name shapes with related bystander names
+        t0 = time.time()
+        for j, sc in enumerate(gen_name_scenarios(ctx)):
+            case = writer_case(sc)
+            explore_case(ctx, sb, mb, case, full=True, pairs=False, forks=(True, False) if j % ctx.budget(8, 2) == 0 else (),
+                         label='name-shape')
+            ctx.count('dest-name:' + sc['dest'])
+            if len(mb.reqs) >= 40:
+                mb.flush()
+        mb.flush()
+        ctx.log(f'destination name shapes (single writer) done in {time.time() - t0:.1f}s')
         # unflushed runs (real buffering): property oracle only
         t0 = time.time()
         for j, sc in enumerate(gen_scenarios(ctx)):
